@@ -79,13 +79,42 @@ Definition lib_hyp_ok (lib : bytes -> result attrs) (layout : arg) : bool :=
   | _ => true
   end.
 
+(* ssh.ParsePublicKey + attribute builder on a decoded key blob, as recorded *)
+Definition key_of_oracle (oracle : list arg) (key : bytes) : result keyinfo :=
+  match assoc_bytes key oracle with
+  | Some (AL [AZ 0%Z; AL [AB t; a]]) => Ok (t, attrs_of_arg a)
+  | Some (AL [AZ 2%Z]) => Panic "oracle"
+  | Some _ => Err "oracle"
+  | None => Err "oracle-missing"
+  end.
+
+(* the modelled line parsers (Model/Containers.v auth_line / hosts_line) *)
+Definition model_lib (hosts : bool) (blobs : list arg) : bytes -> result attrs :=
+  if hosts then ssh_hosts_lib (key_of_oracle blobs) else ssh_auth_lib (key_of_oracle blobs).
+
+(* ... against the library's answer for every chunk of the file *)
+Definition lib_agrees (lib : bytes -> result attrs) (oracle : list arg) : bool :=
+  forallb (fun row => arg_eqb (obs_result (fun a => arg_of_info (Info [] a [])) (lib (arg_bytes (arg_nth 0 row))))
+                              (match arg_nth 1 row with
+                               | AL [AZ 0%Z; a] => AL [AZ 0%Z; arg_of_info (Info [] (attrs_of_arg a) [])]
+                               | o => o
+                               end)) oracle.
+
+(* the files are computed with the modelled line parsers (fields split by the model, key blobs answered by the
+   recorded library); the recorded per-chunk answers of the library serve to compare the two (lib_agrees) *)
 Definition run_ssh (hosts : bool) (input : arg) : arg :=
   let data := arg_bytes (arg_nth 1 input) in
-  let lib := lib_of (arg_list (arg_nth 2 input)) in
+  let lib := model_lib hosts (arg_list (arg_nth 6 input)) in
   let mine := if hosts then known_hosts lib data else authorized_keys lib data in
   out3 mine (arg_list (arg_nth 3 input))
        [if hosts then bs "SSHKnownHosts" else bs "SSHAuthorizedKeys"]
-       (render_ok_ssh (arg_nth 4 input) data && lib_hyp_ok lib (arg_nth 4 input)).
+       (render_ok_ssh (arg_nth 4 input) data && lib_hyp_ok lib (arg_nth 4 input)
+        && lib_agrees lib (arg_list (arg_nth 2 input))).
+
+(* one line through the modelled line parser *)
+Definition run_sshline (input : arg) : arg :=
+  obs_result (fun a => AL (map (fun nv => AL [AB (fst nv); AB (snd nv)]) a))
+             (model_lib (arg_bool (arg_nth 0 input)) (arg_list (arg_nth 2 input)) (arg_bytes (arg_nth 1 input))).
 
 (* ---------- PEM ---------- *)
 Definition lastn {A} (k : nat) (l : list A) : list A := drop (length l - k) l.
@@ -221,6 +250,7 @@ Definition run_jks (input : arg) : arg :=
 Definition run_C06 (op : bytes) (input : arg) : arg :=
   if bytes_eqb op (bs "akeys") then run_ssh false input
   else if bytes_eqb op (bs "khosts") then run_ssh true input
+  else if bytes_eqb op (bs "sshline") then run_sshline input
   else if bytes_eqb op (bs "pem") then run_pem input
   else if bytes_eqb op (bs "jks") then run_jks input
   else AL [].
@@ -303,6 +333,27 @@ Definition check_ssh (hosts : bool) (input impl : arg) : arg :=
           both (check_container (if hosts then "known_hosts" else "authorized_keys")%string
                                 (if hosts then bs "SSH known_hosts" else bs "SSH authorized_keys") want) impl
       | None => AS "an entry of the generated file is not described as an SSH public key when inspected alone"
+      end
+  | _ => AL []
+  end.
+
+(* one line that is a well-formed entry: the library's line parser accepts it and reports the attributes of
+   the key inspected alone (known_hosts: after the host list) *)
+Definition check_sshline (input impl : arg) : arg :=
+  match arg_nth 3 input with
+  | AL [AB hosts_value] =>
+      match obs_info (arg_nth 0 (arg_nth 4 input)) with
+      | Some (Info d at_ []) =>
+          if negb (bytes_eqb d (bs "SSH public key")) then AS "the key of the generated line is not described as an SSH public key when inspected alone"
+          else
+            let want := if arg_bool (arg_nth 0 input) then (bs "Hosts", hosts_value) :: at_ else at_ in
+            match impl with
+            | AL [AZ 0%Z; a] =>
+                if attrs_eqb (attrs_of_arg a) want then AL []
+                else AS "line of an SSH key file: the entry is not described as its key is described when inspected alone (options, quoting or field splitting changed the key, its comment or its hosts)"
+            | _ => AS "line of an SSH key file: a well-formed entry line (options, key type, base64 key, comment) is rejected"
+            end
+      | _ => AS "the key of the generated line cannot be inspected alone"
       end
   | _ => AL []
   end.
@@ -425,6 +476,7 @@ Definition check_jks (input impl : arg) : arg :=
 Definition check_C06 (op : bytes) (input impl : arg) : arg :=
   if bytes_eqb op (bs "akeys") then check_ssh false input impl
   else if bytes_eqb op (bs "khosts") then check_ssh true input impl
+  else if bytes_eqb op (bs "sshline") then check_sshline input impl
   else if bytes_eqb op (bs "pem") then check_pem input impl
   else if bytes_eqb op (bs "jks") then check_jks input impl
   else AL [].
